@@ -433,7 +433,13 @@ pub fn run(ctx: &Ctx) -> (Outcome, String, Option<bool>) {
         ctx.scale(5000, 60_000),
         || {
             (
-                proptest::collection::vec((any::<u8>(), any::<u64>()), 1..6),
+                // mostly 1-5 locked coins; one spend in ten is wide (24-70 locked coins drawn from few families, so
+                // that many inputs share a covenant hash and are interleaved with inputs under other hashes)
+                prop_oneof![
+                    9 => proptest::collection::vec((any::<u8>(), any::<u64>()), 1..6),
+                    1 => (proptest::collection::vec((any::<u8>(), 0u64..3), 2..5), proptest::collection::vec(any::<u8>(), 24..70))
+                        .prop_map(|(kinds, picks)| picks.into_iter().map(|i| kinds[i as usize % kinds.len()]).collect::<Vec<_>>()),
+                ],
                 any::<u8>(),
                 any::<u8>(),
                 any::<u32>(),
@@ -461,7 +467,7 @@ pub fn run(ctx: &Ctx) -> (Outcome, String, Option<bool>) {
             r
         },
     );
-    let rule = "Generated: 1-5 coins locked by covenants from the families legacy signature (slot 0), new signature (slot = input position), hash-lock on tx.data, time-lock on the previous header's height, creation-height bound, spender-index bound, value bound, denomination + additional-data bound, parent-output-index bound, constant false / empty stack / non-integer result / failing program, undecodable bytes, and type-aware random programs; created by one funding transaction at height >= 1 on Custom02/Custom08/Testnet, then spent together with a fee-paying coin by one transaction (ordinary in 7 of 12 cases, otherwise of kind faucet, swap, deposit or withdrawal) with the inputs in a generated order, and tampered in 9 ways (signature bit flip, wrong key, swapped slots, signatures dropped, outputs or data changed after signing, covenant omitted / replaced by garbage / by another program). Balance and fee are valid by construction. Oracle: apply_tx accepts <=> for every input the transaction carries bytes hashing to the coin's covenant hash that decode and that RefVM evaluates to a truthy value on (transaction, that input's id, value, denomination, additional data, creation height, position, previous header). Non-trivial = a spend of >=2 inputs whose verdicts differ, or any tampered spend; distinct by (families in input order, tamper, verdict vector).".to_string();
+    let rule = "Generated: 1-5 coins (one spend in ten: 24-70 coins from 2-4 families, many sharing a covenant hash) locked by covenants from the families legacy signature (slot 0), new signature (slot = input position), hash-lock on tx.data, time-lock on the previous header's height, creation-height bound, spender-index bound, value bound, denomination + additional-data bound, parent-output-index bound, constant false / empty stack / non-integer result / failing program, undecodable bytes, and type-aware random programs; created by one funding transaction at height >= 1 on Custom02/Custom08/Testnet, then spent together with a fee-paying coin by one transaction (ordinary in 7 of 12 cases, otherwise of kind faucet, swap, deposit or withdrawal) with the inputs in a generated order, and tampered in 9 ways (signature bit flip, wrong key, swapped slots, signatures dropped, outputs or data changed after signing, covenant omitted / replaced by garbage / by another program). Balance and fee are valid by construction. Oracle: apply_tx accepts <=> for every input the transaction carries bytes hashing to the coin's covenant hash that decode and that RefVM evaluates to a truthy value on (transaction, that input's id, value, denomination, additional data, creation height, position, previous header). Non-trivial = a spend of >=2 inputs whose verdicts differ, or any tampered spend; distinct by (families in input order, tamper, verdict vector).".to_string();
     (out, rule, None)
 }
 
